@@ -416,20 +416,25 @@ def list_harnesses(prefixes):
                 um = re.search(r"kani::unwind\((\d+)\)", attrs)
                 before = src[max(0, m.start() - 400):m.start()].rstrip().split("\n")[-1]
                 bm = re.match(r"\s*// BOUNDED: (.*)$", before)
+                em = re.match(r"\s*// EXACT-UNWIND: (.*)$", before)
                 found[name] = {"module": fn[:-3], "should_panic": "should_panic" in attrs,
                                "unwind": int(um.group(1)) if um else None,
                                "bounded_note": bm.group(1) if bm else None,
+                               "exact_unwind": em.group(1) if (em and um) else None,
                                "contract": "proof_for_contract" in m.group(0)}
         # harness families generated by a local macro:  macro_rules! xyz_harnesses { ... #[kani::proof] ... fn $name ... }
         for mm in re.finditer(r"macro_rules!\s+(\w+_harnesses)\s*\{(.*?)\n\}", src, re.S):
             mname, mbody = mm.group(1), mm.group(2)
             um = re.search(r"kani::unwind\((\d+)\)", mbody)
+            before = src[max(0, mm.start() - 600):mm.start()].rstrip().split("\n")[-1]
+            em = re.match(r"\s*// EXACT-UNWIND: (.*)$", before)
             for inv in re.finditer(re.escape(mname) + r"!\s*\{(.*?)\n\}", src, re.S):
                 for nm in re.finditer(r"\b(\w+)\s*:", inv.group(1)):
                     name = nm.group(1)
                     if any(name.startswith(p) for p in prefixes):
                         found[name] = {"module": fn[:-3], "should_panic": "should_panic" in mbody,
-                                       "unwind": int(um.group(1)) if um else None, "contract": False}
+                                       "unwind": int(um.group(1)) if um else None, "contract": False,
+                                       "exact_unwind": em.group(1) if (em and um) else None}
     return found
 
 
@@ -596,7 +601,7 @@ def main():
                             continue
                         ob = classify_kani(h, meta, r)
                         obligations.append(ob)
-                        if meta["unwind"] or meta.get("bounded_note"):
+                        if (meta["unwind"] and not meta.get("exact_unwind")) or meta.get("bounded_note"):
                             bounded.append("%s: bounded%s%s" % (h, (", unwind(%d)" % meta["unwind"]) if meta["unwind"] else "",
                                                                 (", " + meta["bounded_note"]) if meta.get("bounded_note") else ""))
                     hsrc = "".join(open(os.path.join(VERIF, "kani", "harness", f)).read() for f in os.listdir(os.path.join(VERIF, "kani", "harness")))
@@ -675,7 +680,7 @@ def main():
 def classify_kani(h, meta, r):
     real_fail = [fc for fc in r["failed_checks"] if not any(p.search(fc["desc"]) for p in IGNORED_KANI_CLASSES)]
     ignored = len(r["failed_checks"]) - len(real_fail)
-    ob = {"id": "kani:" + h, "engine": "kani/cbmc", "kind": "contract" if meta["contract"] else ("bounded(unwind=%d)" % meta["unwind"] if meta["unwind"] else ("bounded" if meta.get("bounded_note") else "complete")),
+    ob = {"id": "kani:" + h, "engine": "kani/cbmc", "kind": "contract" if meta["contract"] else (("complete(unwind=%d is exact, unwinding assertions on: %s)" % (meta["unwind"], meta["exact_unwind"])) if (meta.get("exact_unwind") and not meta.get("bounded_note")) else ("bounded(unwind=%d)" % meta["unwind"] if meta["unwind"] else ("bounded" if meta.get("bounded_note") else "complete"))),
           "solver_s": r["time"] or 0, "checks": r["checks"] + r["covers"], "detail": []}
     if r.get("cbmc_abort"):
         ob["status"] = "undecided"
